@@ -4,7 +4,8 @@
    This file only restates the property theorems; proofs are in frame/*Proofs.v. *)
 From Coq Require Import List NArith ZArith Bool.
 From JV Require Import Bytes FrameBase FrameBaseProofs FrameSpec Split SplitProofs Hdr HdrProofs
-  HdrSpec HdrSpecProofs JsonScan JsonScanProofs RawJson RawJsonProofs.
+  HdrSpec HdrSpecProofs JsonScan JsonScanProofs RawJson RawJsonProofs FrameMore Chunked ChunkedProofs ChunkedHdr ChunkedHdrProofs HdrMore RawJsonMore RawJsonGrammar.
+From JV Require Json.
 From RecordUpdate Require Import RecordUpdate.
 From JV Require Import Msg SrvModel SrvC12.
 Import ListNotations.
@@ -30,6 +31,25 @@ Theorem c12_split_sound : forall b s r st rest,
 Proof. exact split_sound. Qed.
 Print Assumptions c12_split_sound.
 
+(* completeness: every frame of the reference grammar is returned, whatever follows it *)
+Theorem c12_split_complete : forall b r rest,
+  ~ In b r -> Split.recv cfg_fixed b tt (r ++ b :: rest) = Ok r tt rest.
+Proof. exact split_complete. Qed.
+Print Assumptions c12_split_complete.
+
+(* fragmentation (Chunked.v: transport = non-empty chunks under a bufio.Reader): one Recv from ANY
+   reachable reader state, on any stream, returns what the stream model returns on the bytes the
+   reader still delivers, and leaves a reader that delivers exactly the model's remaining stream *)
+Theorem c12_split_chunked_recv : forall c eager b r x,
+  wf bufio_size r ->
+  forget (crecv c eager b (tt, r) x) = Split.recv c b tt (stream r) /\
+  match crecv c eager b (tt, r) x with
+  | Ok _ st rest | OkWithErr _ _ st rest | Err _ st rest => wf bufio_size (snd st) /\ stream (snd st) = rest
+  | _ => True
+  end.
+Proof. exact split_chunked_recv_state. Qed.
+Print Assumptions c12_split_chunked_recv.
+
 (* bytes returned together with an error are the WHOLE unterminated tail (fix F6) *)
 Theorem c12_split_partial_whole : forall b s r e st rest,
   Split.recv cfg_fixed b tt s = OkWithErr r e st rest -> r = s /\ e = EEOF /\ rest = [] /\ ~ In b s.
@@ -53,6 +73,19 @@ Theorem c12_split_exhausted : forall c b,
 Proof. exact (fun c b => conj (split_exhausted c b) (split_exhausted_all c b)). Qed.
 Print Assumptions c12_split_exhausted.
 
+(* the n-th call for EVERY n (call_n recv n st s = the result of call number n+1; after a crash
+   there is no later call): never a panic, never out of fuel *)
+Theorem c12_split_every_call : forall n b s,
+  match call_n (Split.recv cfg_fixed b) n tt s with Crash _ | OutOfFuel => False | _ => True end.
+Proof. exact split_every_call. Qed.
+Print Assumptions c12_split_every_call.
+
+(* "once the stream is exhausted it keeps failing": from call |s|+1 on EVERY call returns io.EOF *)
+Theorem c12_split_eventually_eof : forall n b s,
+  (length s <= n)%nat -> call_n (Split.recv cfg_fixed b) n tt s = Err EEOF tt [].
+Proof. exact split_eventually_eof. Qed.
+Print Assumptions c12_split_eventually_eof.
+
 (* ---- StrictHeader / Header / LSP ---- *)
 
 (* one Recv, from any buffer state the reuse policy can produce, on any stream: no panic (in
@@ -71,6 +104,18 @@ Theorem c12_hdr_no_crash_all : forall p want st s,
   st <= buf_bound -> clean (Hdr.recv_all cfg_fixed p want st s).
 Proof. exact hdr_recv_all_clean. Qed.
 Print Assumptions c12_hdr_no_crash_all.
+
+(* fragmentation (ChunkedHdr.v): one Recv from ANY reachable reader state, for every request
+   schedule of the CopyN path, both defect switches (a crash of one side is a crash of the other) *)
+Theorem c12_hdr_chunked_recv : forall c eager req p want st r x,
+  wf bufio_size r ->
+  forget (chdr_recv c eager req p want (st, r) x) = Hdr.recv c p want st (stream r) /\
+  match chdr_recv c eager req p want (st, r) x with
+  | Ok _ st' rest | OkWithErr _ _ st' rest | Err _ st' rest => wf bufio_size (snd st') /\ stream (snd st') = rest
+  | _ => True
+  end.
+Proof. exact hdr_chunked_recv_state. Qed.
+Print Assumptions c12_hdr_chunked_recv.
 
 Theorem c12_refuted_without_F5 :
   Hdr.recv cfg_without_F5 Strict [] 0 stream_maxint = Crash MakeSliceRange /\
@@ -137,6 +182,61 @@ Theorem c12_header_rules : forall p want st s ct r rest,
 Proof. exact hdr_complete. Qed.
 Print Assumptions c12_header_rules.
 
+(* "require a non-negative decimal Content-Length", explicitly: for EVERY header block of the
+   reference grammar (any fields, any line ends) whose Content-Length field is absent or is not a
+   HdrSpec.decimal, Recv returns "missing required content-length" / "invalid content-length", with
+   the buffer state untouched and nothing of the body consumed; any defect switch, any policy *)
+Theorem c12_hdr_length_required : forall c p want st s fs body,
+  HdrSpec.headers s fs body ->
+  (forall v n, HdrSpec.field HdrSpec.key_length fs = Some v -> ~ HdrSpec.decimal v n) ->
+  Hdr.recv c p want st s = Err EMissingLength st body \/ Hdr.recv c p want st s = Err EInvalidLength st body.
+Proof. exact hdr_length_required. Qed.
+Print Assumptions c12_hdr_length_required.
+
+Theorem c12_hdr_length_missing : forall c p want st s fs body,
+  HdrSpec.headers s fs body ->
+  HdrSpec.field HdrSpec.key_length fs = None \/ HdrSpec.field HdrSpec.key_length fs = Some [] ->
+  Hdr.recv c p want st s = Err EMissingLength st body.
+Proof. exact hdr_length_missing. Qed.
+Print Assumptions c12_hdr_length_missing.
+
+Theorem c12_hdr_length_invalid : forall c p want st s fs body v,
+  HdrSpec.headers s fs body ->
+  HdrSpec.field HdrSpec.key_length fs = Some v -> v <> [] -> (forall n, ~ HdrSpec.decimal v n) ->
+  Hdr.recv c p want st s = Err EInvalidLength st body.
+Proof. exact hdr_length_invalid. Qed.
+Print Assumptions c12_hdr_length_invalid.
+
+Theorem c12_hdr_every_call : forall n p want st s,
+  st <= buf_bound ->
+  match call_n (Hdr.recv cfg_fixed p want) n st s with
+  | Ok _ st' _ | OkWithErr _ _ st' _ | Err _ st' _ => st' <= buf_bound
+  | Crash _ | OutOfFuel => False
+  end.
+Proof. exact hdr_every_call. Qed.
+Print Assumptions c12_hdr_every_call.
+
+(* errors of the header framings consume input; from call |s|+1 on EVERY call returns io.EOF *)
+Theorem c12_hdr_eventually_eof : forall n p want st s,
+  st <= buf_bound -> (length s <= n)%nat ->
+  exists st', st' <= buf_bound /\ call_n (Hdr.recv cfg_fixed p want) n st s = Err EEOF st' [].
+Proof. exact hdr_eventually_eof. Qed.
+Print Assumptions c12_hdr_eventually_eof.
+
+(* ---- all stream framings: what is left is a suffix of what was there, for EVERY outcome ---- *)
+
+(* records, records with an error, bare errors of every kind, either defect switch, any state: the
+   remaining stream is a suffix of the input - nothing fabricated or reordered on error paths *)
+Theorem c12_rest_is_suffix :
+  (forall c b s rest, rest_of (Split.recv c b tt s) = Some rest -> FrameMore.suffix rest s) /\
+  (forall c p want st s rest, rest_of (Hdr.recv c p want st s) = Some rest -> FrameMore.suffix rest s) /\
+  (forall st s rest, rest_of (RawJson.recv st s) = Some rest -> FrameMore.suffix rest s).
+Proof.
+  exact (conj (fun c b s rest => split_rest_is_suffix c b bufio_size s rest bufio_size_pos)
+              (conj hdr_rest_is_suffix rawjson_rest_is_suffix)).
+Qed.
+Print Assumptions c12_rest_is_suffix.
+
 (* ---- RawJSON ---- *)
 
 (* one Recv on any stream, in any decoder state: no panic, no fuel exhaustion *)
@@ -185,6 +285,79 @@ Theorem c12_rawjson_truncation : forall rs r pre suf,
   exists e, RawJson.recv_all (concat (map RawJsonProofs.enc rs) ++ pre) = map IRec rs ++ [IErr e].
 Proof. exact rawjson_truncation. Qed.
 Print Assumptions c12_rawjson_truncation.
+
+(* EVERY error Recv returns - io.EOF, syntax, io.ErrUnexpectedEOF - becomes the decoder state at
+   the call that produced it and consumes nothing; every later Recv returns the same error *)
+Theorem c12_rawjson_error_sticky_from_start : forall st s e st' rest,
+  RawJson.recv st s = Err e st' rest ->
+  st' = Some e /\ rest = s /\ forall s', RawJson.recv st' s' = Err e st' s'.
+Proof. exact rawjson_error_sticky_from_start. Qed.
+Print Assumptions c12_rawjson_error_sticky_from_start.
+
+Theorem c12_rawjson_error_sticky_every_call : forall st s e st' rest,
+  RawJson.recv st s = Err e st' rest -> forall n, call_n RawJson.recv n st s = Err e (Some e) s.
+Proof. exact rawjson_error_sticky_every_call. Qed.
+Print Assumptions c12_rawjson_error_sticky_every_call.
+
+(* truncation, with the error kind and the literals: complete records (objects, arrays, strings,
+   true, false, empty), then a proper non-empty prefix of an object, array, string, true, false or
+   null: the complete records, then io.ErrUnexpectedEOF, and no shortened record *)
+Theorem c12_rawjson_truncation_kind : forall rs r pre suf,
+  Forall (fun r => r = [] \/ json_record_lit r = true) rs ->
+  (json_record r = true \/ r = j_true \/ r = j_false \/ r = s_null) ->
+  r = pre ++ suf -> pre <> [] -> suf <> [] ->
+  RawJson.recv_all (concat (map RawJsonProofs.enc rs) ++ pre) = map IRec rs ++ [IErr EUnexpectedEOF].
+Proof. exact rawjson_truncation_kind. Qed.
+Print Assumptions c12_rawjson_truncation_kind.
+
+(* THE EXCEPTION to "a final record cut off by end of stream is reported with an error": a bare
+   number is not self-delimiting - 12 cut from 123 is accepted as 12, and 1 followed by 2 arrives
+   as 12 - which is why the record grammar of C11 (json_record_lit) excludes numbers *)
+Theorem c12_rawjson_number_exception :
+  RawJson.recv_all [49; 50; 51] = [IRec [49; 50; 51]; IErr EEOF] /\
+  RawJson.recv_all [49; 50] = [IRec [49; 50]; IErr EEOF] /\
+  RawJson.recv_all ([49] ++ [50]) = [IRec [49; 50]; IErr EEOF] /\
+  json_record_lit [49; 50; 51] = false.
+Proof. exact rawjson_number_truncation_accepted. Qed.
+Print Assumptions c12_rawjson_number_exception.
+
+Theorem c12_rawjson_every_call : forall n st s,
+  match call_n RawJson.recv n st s with Crash _ | OutOfFuel => False | _ => True end.
+Proof. exact rawjson_every_call. Qed.
+Print Assumptions c12_rawjson_every_call.
+
+(* after at most |s| records the first error has happened; from then on EVERY call returns it *)
+Theorem c12_rawjson_eventually_fails : forall n s,
+  (length s <= n)%nat ->
+  exists e rest, forall m, (n <= m)%nat -> call_n RawJson.recv m None s = Err e (Some e) rest.
+Proof. exact rawjson_eventually_fails. Qed.
+Print Assumptions c12_rawjson_eventually_fails.
+
+(* soundness against the INDEPENDENT JSON grammar of json/Json.v (the recursive-descent parser
+   behind json.Valid, written for the wire properties): every non-empty record Recv returns is
+   valid JSON ... *)
+Theorem c12_rawjson_recv_valid : forall s r rest,
+  RawJson.recv None s = Ok r None rest -> r <> [] -> Json.valid r = true.
+Proof. exact rawjson_recv_valid. Qed.
+Print Assumptions c12_rawjson_recv_valid.
+
+(* ... and in general: what one Recv consumes is white space followed by exactly one value of that
+   grammar, without surrounding white space (tight_at 0), which is the record unless it is null *)
+Theorem c12_rawjson_recv_grammar : forall st s r st' rest,
+  RawJson.recv st s = Ok r st' rest ->
+  exists j raw, s = j ++ raw ++ rest /\ all_ws j /\
+                Json.valid raw = true /\ Json.tight_at 0 raw = true /\
+                r = (if is_null raw then [] else raw).
+Proof. exact rawjson_recv_grammar. Qed.
+Print Assumptions c12_rawjson_recv_grammar.
+
+(* completeness against that grammar: every value of it that is not a number - object, array,
+   string, true, false, null - is returned by Recv whatever follows it (null as the empty record) *)
+Theorem c12_rawjson_complete : forall r rest,
+  Json.tight_at 0 r = true -> nonnum r ->
+  RawJson.recv None (r ++ rest) = Ok (if is_null r then [] else r) None rest.
+Proof. exact rawjson_complete. Qed.
+Print Assumptions c12_rawjson_complete.
 
 (* ---- the server and a final record delivered together with io.EOF ---- *)
 
